@@ -88,6 +88,7 @@ CHECKS = {
 # checks living in their own module lib/<module>.py with run(tier, seed, replay)
 for _pid, _mod in {
     "C07": "c07",
+    "C13": "c13",
     "C14": "c14",
 }.items():
     CHECKS[_pid] = _lazy(_mod)
